@@ -390,7 +390,9 @@ def run(tier, seed):
           ('define a 7:00 define b 2*:*5 time at a or b on all time at b or a off all time at a wait', 'tp-two-macros'),
           # names looked up at run time: macros, variables and registers in named printf fields, before and after they are set
           ('define limit 75 define who "Top" printf "{limit} for {who} {x} {hue}" assign x 3 hue 20 printf "{limit} {x} {hue}" print limit on all', 'names-at-run-time'),
-          ('define f with p begin printf "{p} {q} {m}" assign q p end define m 4 f 1 assign q 9 f 2 print q', 'names-in-routines')]
+          ('define f with p begin printf "{p} {q} {m}" assign q p end define m 4 f 1 assign q 9 f 2 print q', 'names-in-routines'),
+          # operands the VM rewrites while it works on them must be its own copies: format strings with escapes, string values
+          ('define fmt "x\\n{}|\\n" printf "a\\nb {}\\n" 1 printf fmt 2 print "c\\nd" on all', 'escapes-in-formats')]
     for text, tag in TP:
         class _TextCase(scripth.Case):
             pass
